@@ -249,6 +249,9 @@ struct CloseSt {
     /// Its CLOSE request has been put in the submission queue.
     submitted: bool,
     finished: bool,
+    /// The kernel answered its CLOSE with EINTR (the flush was interrupted: the descriptor is
+    /// closed all the same, close(2) NOTES).
+    interrupted: bool,
 }
 
 /// Oracle's record of a descriptor the kernel has open.
@@ -889,8 +892,18 @@ impl World {
         let close_reqs = self.drain();
         if !close_reqs.is_empty() {
             // IORING_OP_CLOSE finishes at once in the kernel: complete it and let a10 see it.
+            // One in four reports EINTR: the file's flush was interrupted (NFS, FUSE, ...). As with
+            // close(2) the descriptor is closed all the same, so the request must not be issued
+            // again (the number may belong to somebody else by then).
             for r in close_reqs {
-                simk::with(|s| s.complete(r, 0, 0));
+                let ud = simk::with(|s| s.inflight.iter().find(|q| q.req == r).map(|q| q.sqe.user_data));
+                let c = self.closes.iter().position(|c| c.ud.is_some() && c.ud == ud);
+                let intr = c.is_some() && (self.obs.len() + r as usize) % 4 == 0;
+                if let (true, Some(c)) = (intr, c) {
+                    self.closes[c].interrupted = true;
+                    self.tags.insert("close-op-answered-EINTR".into());
+                }
+                simk::with(|s| s.complete(r, if intr { -libc::EINTR } else { 0 }, 0));
             }
             self.ring_poll_once();
             let again = self.drain();
@@ -944,7 +957,7 @@ impl World {
             // kernel-side oracle judges what the submission does.
             self.tags.insert("close()-queued-a-submission".into());
         }
-        self.closes.push(CloseSt { fut: Some(fut), ud: None, desc, submitted: false, finished: false });
+        self.closes.push(CloseSt { fut: Some(fut), ud: None, desc, submitted: false, finished: false, interrupted: false });
     }
 
     fn do_poll_close(&mut self, c: usize) {
@@ -969,6 +982,13 @@ impl World {
             Ok(Poll::Ready(Ok(()))) => {
                 self.obs.push(14);
                 self.closes[c].finished = true;
+            }
+            // The descriptor is closed, the caller is told about the interruption: for the
+            // descriptor accounting (and the model) the close future has finished.
+            Ok(Poll::Ready(Err(e))) if self.closes[c].interrupted && e.raw_os_error() == Some(libc::EINTR) => {
+                self.obs.push(14);
+                self.closes[c].finished = true;
+                self.tags.insert("close-future-returned-EINTR".into());
             }
             Ok(Poll::Ready(Err(e))) => {
                 self.obs.extend([12, -(e.raw_os_error().unwrap_or(99_999) as i128)]);
